@@ -26,7 +26,7 @@ import (
 
 func Main() {
 	mc.Main("C06", "exploration",
-		"scaled block sizes (large=64, small=8, buffer=8, passed as parameters): every .dat size 0..2080 (3 large rows + 2 small rows, crossing every row boundary) with position-dependent content is encoded by the real encoder; the data shards are compared with a reference striping, and reads located by LocateData/ToShardIdAndOffset from the shard-derived size are compared with the original bytes for every 8-aligned offset x every length to the end of the file on the boundary sizes (quick: 41 sizes around the large-row boundaries; thorough: every small-row multiple +-1) and elsewhere every offset x lengths {8,40,72,648,to the end} (quick) / every multiple of 8 (thorough); every subset of 1..4 missing shards is rebuilt by the real rebuilder and compared byte for byte (quick: on 4 sizes, thorough: on every second small-row multiple; a rotating subset of each cardinality on the other boundary sizes / thorough: on all other sizes); real constants: volumes of real needles with sizes around 10 and 20 MiB through WriteEcFiles / LocateEcShardNeedle / RebuildEcFiles / FindDatFileSize / WriteDatFile, and LocateData arithmetic around k*10 GiB against the reference striping; distinct = (phase, row class of the size, outcome)",
+		"scaled block sizes (large=64, small=8, buffer=8, passed as parameters): every .dat size 0..2080 (3 large rows + 2 small rows, crossing every row boundary) with position-dependent content is encoded by the real encoder; the data shards are compared with a reference striping, and reads located by LocateData/ToShardIdAndOffset from the shard-derived size are compared with the original bytes for every 8-aligned offset x every length to the end of the file on the boundary sizes (quick: 41 sizes around the large-row boundaries; thorough: every small-row multiple +-1) and elsewhere every offset x lengths {8,40,72,648,to the end} (quick) / every multiple of 8 (thorough); every subset of 1..4 missing shards is rebuilt by the real rebuilder and compared byte for byte (quick: on 3 sizes, thorough: on every second small-row multiple; a rotating subset of each cardinality on the other boundary sizes / thorough: on all other sizes); real constants: volumes of real needles with sizes around 10 and 20 MiB through WriteEcFiles / LocateEcShardNeedle / RebuildEcFiles / FindDatFileSize / WriteDatFile, and LocateData arithmetic around k*10 GiB against the reference striping; distinct = (phase, row class of the size, outcome)",
 		run)
 }
 
@@ -470,7 +470,7 @@ func run(r *mc.Run) {
 	// the rebuilder works shard-wise in 1 MiB chunks and never looks at block sizes: every subset of
 	// missing shards is tried on a few sizes (quick) / on every second small-row multiple (thorough); a rotating
 	// representative of each subset size everywhere else
-	every := map[int64]bool{1: true, 80: true, 640: true, maxDat: true}
+	every := map[int64]bool{1: true, 640: true, maxDat: true}
 	if !r.Quick() {
 		// thorough: every small-row multiple and its neighbours get every read length
 		for k := int64(0); k*nData*small <= maxDat; k++ {
